@@ -285,6 +285,14 @@ func splitEq(atom string) (lhs, c string, ok bool) {
 	return lhs, c, true
 }
 
+// isLiteralTerm reports whether t is a string or numeric literal term.
+func isLiteralTerm(t string) bool {
+	if t == "" {
+		return false
+	}
+	return t[0] == '"' || (t[0] >= '0' && t[0] <= '9')
+}
+
 func isConstTerm(c string) bool {
 	if c == "" {
 		return false
@@ -500,7 +508,14 @@ func (s *pstate) term(v ssa.Value) string {
 		}
 		return x.Op.String() + s.term(x.X)
 	case *ssa.BinOp:
-		return "(" + s.term(x.X) + " " + x.Op.String() + " " + s.term(x.Y) + ")"
+		l, r := s.term(x.X), s.term(x.Y)
+		if (x.Op == token.EQL || x.Op == token.NEQ) && isLiteralTerm(l) && isLiteralTerm(r) {
+			if (l == r) == (x.Op == token.EQL) {
+				return "true"
+			}
+			return "false"
+		}
+		return "(" + l + " " + x.Op.String() + " " + r + ")"
 	case *ssa.Call:
 		return s.callTerm(&x.Call)
 	case *ssa.MakeInterface:
